@@ -1075,9 +1075,36 @@ def part_e(ctx):
 
 # ---------------------------------------------------------------------------
 
+def probe_names(ctx):
+    """`dd` accepts any string as a variable name; `to_expr` prints it verbatim.  The round
+    trip `add_expr(to_expr(u)) == u` is stated (and proved for the model) for names that are NAME
+    tokens and not reserved words; what happens for other names is recorded, not judged."""
+    out = []
+    for nm in ['TRUE', 'True', 'FALSE', 'ite', 'a.b', 'x y', 'x-y', '1a', "a'b", '_x']:
+        b = lib._bdd.BDD()
+        try:
+            b.declare(nm, 'x', 'y')
+            u = b.var(nm)
+            s = b.to_expr(u)
+            try:
+                v = b.add_expr(s)
+                res = 'same' if v == u else f'other function ({v} instead of {u})'
+            except Exception as e:  # noqa: BLE001
+                res = 'raises ' + type(e).__name__
+        except Exception as e:  # noqa: BLE001
+            res = 'declare/var raises ' + type(e).__name__
+        out.append(f'{nm!r}: {res}')
+        ctx.count('name-probe')
+        if nm in ("a'b", '_x') and res != 'same':
+            ctx.violation('round trip fails for a NAME variable', dict(
+                name=nm, result=res, tags=dict(call='to_expr', kind='roundtrip-name')))
+    ctx.notes.append('add_expr(to_expr(var)) by variable name: ' + '; '.join(out))
+
+
 def check_C05(ctx):
     ctx.driver = DRIVER
     build_driver(ctx)
+    probe_names(ctx)
     part_d(ctx)
     part_bc(ctx)
     part_e(ctx)
